@@ -6,7 +6,7 @@ CONSTANTS
   NMods = 1
   Policy = "none"
   Forge64 = {"resign_stranger"}
-  Forge22 = {"resign_stranger"}
+  Forge22 = {"resign_stranger", "strip_certchain"}
   Forge32 = {"resign_stranger"}
   MaxReq = 7
   WithMutants = FALSE
